@@ -220,6 +220,7 @@ class Item:
         self.fragment = None   # (mode, anchor): 'block-after' | 'head-until'
         self.header = []
         self.tail = []
+        self.prefix = []
         self.macro_stmts = []  # (tag, macro name, replacement statement)
 
 
@@ -294,10 +295,10 @@ def parse_sidecar(path):
                 cur = None
             elif key == 'resub':
                 # optional trailing: default `X` = what an unmatched optional group expands to
-                m = re.match(r'(\S+)\s+(\d+)\s+/((?:[^/\\]|\\.)*)/\s*=>\s*' + _BT + r'(?:\s+default\s+' + _BT + r')?\s*$', rest)
+                m = re.match(r'(\S+)\s+(\d+|\+)\s+/((?:[^/\\]|\\.)*)/\s*=>\s*' + _BT + r'(?:\s+default\s+' + _BT + r')?\s*$', rest)
                 if not m:
                     raise SpecError('%s:%d: bad resub' % (path, ln))
-                item.subs.append((m.group(1), int(m.group(2)), 're' if m.group(5) is None else ('re', _unq(m.group(5))), m.group(3), _unq(m.group(4))))
+                item.subs.append((m.group(1), -1 if m.group(2) == '+' else int(m.group(2)), 're' if m.group(5) is None else ('re', _unq(m.group(5))), m.group(3), _unq(m.group(4))))
                 cur = None
             elif key == 'sig':
                 m = re.match(r'(\S+)\s+' + _BT + r'\s*=>\s*' + _BT + r'\s*$', rest)
@@ -327,6 +328,8 @@ def parse_sidecar(path):
                 cur = item.header
             elif key == 'tail':
                 cur = item.tail
+            elif key == 'prefix':
+                cur = item.prefix
             elif key == 'macro-stmt':
                 m = re.match(r'(\S+)\s+(\S+)\s*=>\s*' + _BT + r'\s*$', rest)
                 if not m:
@@ -571,7 +574,10 @@ def build(repo, sidecar_path, extra_spec=None):
             g.rewrites.append({'tag': 'Rfrag', 'where': where,
                                'before': 'fn %s: everything outside the %s `%s`' % (item.name, 'block opened by' if mode == 'block-after' else 'statements before', anchor),
                                'after': 'dropped; the fragment is wrapped in the synthetic signature `%s`%s' % (' '.join(header.split()), (' and followed by `%s`' % tail.strip()) if tail.strip() else '')})
-            raw = header + ' {' + dedent(inner.rstrip('\n')) + ('\n' + tail if tail.strip() else '') + '\n}'
+            prefix = '\n'.join(l for l, _ in item.prefix)
+            if prefix.strip():
+                g.rewrites[-1]['after'] += '; the fragment is the body of `%s .. }`' % ' '.join(prefix.split())
+            raw = header + ' {' + ('\n' + prefix if prefix.strip() else '') + dedent(inner.rstrip('\n')) + ('\n' + tail if tail.strip() else '') + '\n}'
         sha = hashlib.sha256(raw.encode()).hexdigest()
         text = dedent(raw)
         if item.keep_variants is not None and item.kind == 'enum':
@@ -672,10 +678,10 @@ def build(repo, sidecar_path, extra_spec=None):
                     text, c = re.subn(frm, _exp, text, flags=re.S)
                 else:
                     text, c = re.subn(frm, to, text, flags=re.S)
-                if c != count:
+                if (count == -1 and c < 1) or (count != -1 and c != count):
                     raise ExtractionLost('%s: rewrite %s expected %d match(es) of /%s/, found %d'
                                          % (where, tag, count, frm, c))
-            g.rewrites.append({'tag': tag, 'where': where, 'before': frm, 'after': to, 'count': count})
+            g.rewrites.append({'tag': tag, 'where': where, 'before': frm, 'after': to, 'count': c if k != 'lit' else count})
         if item.newname:
             text = re.sub(r'\b(fn|enum|struct|const|type)\s+' + re.escape(item.name) + r'\b',
                           r'\1 ' + item.newname, text, count=1)
